@@ -126,7 +126,7 @@ func init() {
 	register(&Prop{
 		ID: "C11", Cmd: "c11",
 		Rule: "random file sets (0-5 files, empty files, empty names, contents mixing LF, lone CR, CRLF, no trailing newline); every global position from 0 to two past the end is translated. Non-trivial = at least two files and a line feed; distinct = distinct case text.",
-		Count: quickN(4000, 40000),
+		Count: quickN(4000, 300000),
 		Gen:   c11Gen,
 		Exec:  c11Exec,
 		Shrink: func(c *Sexp) []*Sexp {
